@@ -103,6 +103,7 @@ exception Mismatch of string
 
 (* coverage counters over all replayed files *)
 let cov : (string, int) Hashtbl.t = Hashtbl.create 32
+let pending_sync : (string, (n * bool * bool * bool)) Hashtbl.t = Hashtbl.create 8
 let hit name = Hashtbl.replace cov name (1 + Option.value ~default:0 (Hashtbl.find_opt cov name))
 
 let fail fmt = Printf.ksprintf (fun s -> raise (Mismatch s)) fmt
@@ -243,12 +244,25 @@ let process fuel ctx (line : string) =
     | [ "mark"; t; k; "->"; o1; o2 ] ->
       let out, w = do_step fuel ctx (OMarkTarget (thread_of t, key_of ctx k)) in
       no_wakes w; expect_outcome out (o1 ^ " " ^ (if o1 = "thread" then string_of_int (int_of_n (thread_of o2)) else o2))
+    | [ "syncstate"; t; k; w1; tt; tw ] ->
+      (* the sync entry as left by ClaimGuard::transfer; compared after the model's OTransfer *)
+      Hashtbl.replace pending_sync t (key_of ctx k, bool_of w1, bool_of tt, bool_of tw)
     | [ "transfer"; t; k; k'; o1; o2; "->"; b ] ->
       let tn = thread_of t in
       let kn = key_of ctx k and kn' = key_of ctx k' in
       let before = ctx.st.dg in
       let nkeys = Hashtbl.length ctx.keys in
       let out, w = do_step fuel ctx (OTransfer (tn, kn, kn', owner_of o1 o2)) in
+      (match Hashtbl.find_opt pending_sync t with
+       | Some (pk, pw, pt, ptw) when pk = kn ->
+         Hashtbl.remove pending_sync t;
+         (match ctx.st.sync kn with
+          | Some st ->
+            if st.ss_waiting <> pw || st.ss_target <> pt || st.ss_twice <> ptw then
+              fail "transfer: sync entry differs: logged waiting=%b target=%b twice=%b, model waiting=%b target=%b twice=%b"
+                pw pt ptw st.ss_waiting st.ss_target st.ss_twice
+          | None -> fail "transfer: model has no sync entry for the transferred key")
+       | _ -> ());
       (* which branch of transfer_lock was that? *)
       (match before.transferred kn with
        | None -> hit "transfer:vacant"
@@ -282,6 +296,7 @@ let process fuel ctx (line : string) =
   | _ -> fail "unparsable record"
 
 let replay_file fuel verbose (path : string) : (int, int * string) result =
+  Hashtbl.reset pending_sync;
   let ctx = { st = init; keys = Hashtbl.create 16; pending = Hashtbl.create 8;
               self_blocked = Hashtbl.create 8; steps = 0 } in
   let ic = open_in path in
